@@ -25,6 +25,16 @@ def elem(I, ref, o, idx: VInt):
     """element at a (normalised, in range) index"""
     key = idx.c if idx.c is not None else ("t", z3.simplify(idx.as_int()).get_id())
     e = o.meta["elems"].get(key)
+    if e is None and o.meta["elem_type"] == "concat":
+        for (start, n, p) in o.meta["segs"]:
+            rel = ops._arith(I, "-", idx, start)
+            inside = ops.int_cmp("<", rel, n)
+            if inside.c is True or (inside.c is None and I.path.branch(inside.term(), "catseg")):
+                po = I.hobj(p)
+                if po.kind == "list":
+                    return I.getitem(p, rel)
+                return elem(I, p, po, rel)
+        raise Unsupported("concat list index beyond all segments")
     if e is None:
         if o.meta["elem_type"] == "opaque":
             raise Unsupported("element access on an opaque list")
@@ -48,7 +58,28 @@ def getslice(I, ref, o, lo, hi):
 
 
 def method(I, ref, o, name, args, kw):
+    if name == "append":
+        I.log_write(("cont", ref.ref))
+        n = o.meta["len"]
+        key = n.c if n.c is not None else ("t", z3.simplify(n.as_int()).get_id())
+        o.meta["elems"] = dict(o.meta["elems"])
+        o.meta["elems"][key] = (args[0], n)
+        o.meta["len"] = ops._arith(I, "+", n, mkint(1))
+        return B.NONE
     raise Unsupported(f"symbolic list method {name}")
+
+
+def concat_lists(I, parts, name="cat"):
+    """concatenation of concrete / symbolic lists as one symbolic list (elements located by case split)"""
+    total = mkint(0)
+    segs = []
+    for p in parts:
+        o = I.hobj(p)
+        n = mkint(len(o.items)) if o.kind == "list" else o.meta["len"]
+        segs.append((total, n, p))
+        total = ops._arith(I, "+", total, n)
+    ref = VRef(I.path.alloc(HObj("symlist", items=[], meta={"len": total, "elem_type": "concat", "elems": {}, "cs": None, "name": name, "segs": segs})))
+    return ref
 
 
 def contains(I, ref, o, x):
